@@ -30,6 +30,7 @@ import (
 
 const rule = "a file case is non-trivial when the password is non-ASCII or has whitespace at an edge, or the secret is not 32 bytes long, " +
 	"or it is an externally written file with r != 8 or p != 1 or PBKDF2; every tamper case (one altered byte of ciphertext/MAC/salt or one altered KDF parameter) is non-trivial; " +
+	"every history (kind hist: related files created and read in one process) and every concurrent batch is non-trivial; " +
 	"distinct by hash of the case JSON"
 
 // ---- small helpers ------------------------------------------------------------------------
@@ -1224,7 +1225,7 @@ func TestCheck(t *testing.T) {
 	})
 
 	// histories: related files created and read one after the other in this process
-	rec.Rapid(t, "hist", rec.N(200, 1500), func(rt *rapid.T) {
+	rec.Rapid(t, "hist", rec.N(200, 800), func(rt *rapid.T) {
 		c, cl := genHist(rt, !rec.Thorough())
 		m.kHist.Check(rt, c, true, cl...)
 		m.poolHist.Offer(c)
